@@ -778,7 +778,7 @@ class EvolutionSuperOperator(SuperOperator, TimeDependent, Saveable):
                 rhot = ReducedDensityMatrixEvolution(timeaxis=self.time,
                                                      rhoi=target)
                 k_i = 0
-                for tt in time.data:
+                for tt in self.time.data:
                     rhot.data[k_i,:,:] = \
                     numpy.tensordot(self.data[k_i,:,:,:,:],
                                     target.data)
@@ -786,7 +786,7 @@ class EvolutionSuperOperator(SuperOperator, TimeDependent, Saveable):
                 
                 return rhot
 
-            elif isinstance(time, (list, numpy.array, tuple, TimeAxis)):
+            elif isinstance(time, (list, numpy.ndarray, tuple, TimeAxis)):
                 
                 #
                 # we apply at points specified by TimeAxis
